@@ -12,6 +12,9 @@ def const_term(op):
     if "fn" in op:
         return ("fn", op["fn"])
     if op.get("uneval"):
+        if op.get("promoted") is not None:
+            # a promoted constant: identified by the statements of its promoted body
+            return ("promoted", tuple(op.get("pstmts") or ()), op.get("ty"))
         return ("uneval", op["uneval"], tuple(op.get("uneval_args") or ()))
     return ("c", op.get("val"), op.get("ty"), op.get("s"))
 
